@@ -77,7 +77,10 @@ fn main() {
     if let Some(core) = args.get("pin") {
         simrt::pin_to_core(core.parse().expect("--pin"));
     }
-    let dir = args.get("dir").expect("--dir").to_string();
+    let mut dir = args.get("dir").expect("--dir").to_string();
+    if let Some(fixed) = args.get("mount-at") {
+        dir = simrt::mount_at(&dir, fixed);
+    }
     std::env::set_current_dir(&dir).expect("cannot chdir to --dir");
     let out = args.get("out").map(|s| s.to_string());
     let entry = args.get("entry").unwrap_or("main.er").to_string();
@@ -166,7 +169,7 @@ fn main() {
         "harness": "simc", "seed": seed, "class": class, "ok": ok, "code": code_hex,
         "diags": diags, "stats": stats, "probe_log": probes, "deviations": devs, "knobs": knobs,
         "parallel": erg_common::consts::PARALLEL,
-        "live_threads": rt.live_threads(),
+        "live_threads": rt.live_threads(), "dir": dir,
     });
     emit(out.as_deref(), &v);
     // lingering sim threads are parked; leave without running destructors
